@@ -9,6 +9,7 @@ Local Open Scope string_scope.
 Local Open Scope list_scope.
 Local Open Scope nat_scope.
 Local Notation length := List.length.
+Local Notation render_body := RefStmt.render_body.   (* Proofs/ExprParseP.v has a lemma of the same name *)
 Arguments isT !t k /.
 Arguments litfold !t kw /.
 Arguments parse_select : simpl never.
@@ -59,12 +60,16 @@ Ltac isT_conc :=
   repeat match goal with
          | |- context [isT (Tk ?a ?s) ?k] =>
              let b := eval vm_compute in (tty_eqb a k) in change (isT (Tk a s) k) with b
+         | |- context [isT tLP ?k] => let b := eval vm_compute in (isT tLP k) in change (isT tLP k) with b
+         | |- context [isT tRP ?k] => let b := eval vm_compute in (isT tRP k) in change (isT tRP k) with b
+         | |- context [isT tComma ?k] => let b := eval vm_compute in (isT tComma k) in change (isT tComma k) with b
+         | |- context [isT tPeriod ?k] => let b := eval vm_compute in (isT tPeriod k) in change (isT tPeriod k) with b
          end.
 
 Ltac in_sub := let a := fresh "a" in let Ha := fresh "Ha" in intros a Ha; cbn [In] in *; tauto.
 
 (* clause keywords after the FROM clause, in order, and what may follow a SELECT *)
-Definition Tstop : list tty := [TyEOF; TySemicolon; TyRParen; TyUnion; TyExcept; TyIntersect].
+Definition Tstop : list tty := [TyEOF; TySemicolon; TyRParen; TyUnion; TyExcept; TyIntersect; TyReturning].
 Definition T5 := TyOffset :: Tstop.
 Definition T4 := TyLimit :: T5.
 Definition T3 := TyOrder :: T4.
@@ -73,7 +78,7 @@ Definition T1 := TyGroup :: T2.
 Definition T0 := TyWhere :: T1.
 Definition Tjoin : list tty := [TyJoin; TyInner; TyLeft; TyRight; TyFull; TyCross; TyNatural].
 Definition TJ0 := Tjoin ++ T0.
-Definition Titems := TyFrom :: Tstop.
+Definition Titems := TyFrom :: T0.
 Ltac in_sub2 := let a := fresh "a" in let Ha := fresh "Ha" in intros a Ha; unfold Titems, TJ0, Tjoin, T0, T1, T2, T3, T4, T5, Tstop in *; cbn [In app] in *; tauto.
 
 Lemma sel_follow_hd : forall stop, sel_follow stop -> hd_in Tstop stop.
@@ -784,16 +789,24 @@ Section SP.
   Qed.
 
   Lemma titems_check : forall t, tyin t Titems = true ->
-      negb (isT t TyFrom) && negb (isT t TyEOF) && negb (isT t TySemicolon) && negb (isT t TyRParen) && negb (is_setop t) = false.
+      negb (isT t TyFrom) && negb (isT t TyEOF) && negb (isT t TySemicolon) && negb (isT t TyRParen) && negb (is_setop t)
+      && negb (is_clause_start t) = false.
   Proof.
-    intros t H. unfold tyin, Titems, Tstop in H. cbn [existsb] in H. unfold is_setop, isT.
+    intros t H. unfold tyin, Titems, T0, T1, T2, T3, T4, T5, Tstop in H. cbn [existsb] in H. unfold is_setop, is_clause_start, isT.
     destruct (tty_eqb (ty t) TyFrom); [reflexivity|].
     destruct (tty_eqb (ty t) TyEOF); [reflexivity|].
     destruct (tty_eqb (ty t) TySemicolon); [reflexivity|].
     destruct (tty_eqb (ty t) TyRParen); [reflexivity|].
     destruct (tty_eqb (ty t) TyUnion); [reflexivity|].
     destruct (tty_eqb (ty t) TyExcept); [reflexivity|].
-    destruct (tty_eqb (ty t) TyIntersect); [reflexivity|]. discriminate H.
+    destruct (tty_eqb (ty t) TyIntersect); [reflexivity|].
+    destruct (tty_eqb (ty t) TyWhere); [reflexivity|].
+    destruct (tty_eqb (ty t) TyGroup); [reflexivity|].
+    destruct (tty_eqb (ty t) TyHaving); [reflexivity|].
+    destruct (tty_eqb (ty t) TyOrder); [reflexivity|].
+    destruct (tty_eqb (ty t) TyLimit); [reflexivity|].
+    destruct (tty_eqb (ty t) TyOffset); [reflexivity|].
+    destruct (tty_eqb (ty t) TyReturning); [repeat rewrite orb_true_r; reflexivity|]. discriminate H.
   Qed.
 
   Lemma joins_all_ref : forall l, forallb join_ok l = true -> Forall join_ref_ok l.
@@ -812,9 +825,8 @@ Section SP.
     intros sr [dist items from joins wh gb hv ob lim off] stop d Hok Hflag Hstop Hdep Hlen.
     unfold select_ok in Hok. cbn [s_distinct s_items s_from s_joins s_where s_group s_having s_order s_limit s_offset] in Hok.
     repeat (let H := fresh "Hk" in apply andb_prop in Hok; destruct Hok as [Hok H]).
-    rename Hok into Hne. rename Hk9 into Hitems. rename Hk8 into Hfrom. rename Hk7 into Hnojoin. rename Hk6 into Hjoins.
-    rename Hk5 into Hwh. rename Hk4 into Hgb. rename Hk3 into Hhv. rename Hk2 into Hob. rename Hk1 into Hlim. rename Hk0 into Hoff.
-    rename Hk into Hnofrom.
+    rename Hok into Hne. rename Hk8 into Hitems. rename Hk7 into Hfrom. rename Hk6 into Hnojoin. rename Hk5 into Hjoins.
+    rename Hk4 into Hwh. rename Hk3 into Hgb. rename Hk2 into Hhv. rename Hk1 into Hob. rename Hk0 into Hlim. rename Hk into Hoff.
     unfold select_bare_alias_free in Hflag. cbn [s_items] in Hflag.
     unfold select_depth in Hdep. cbn [s_items s_joins s_where s_group s_having s_order] in Hdep.
     unfold select_tail_toks in *. cbn [s_distinct s_items s_from s_joins s_where s_group s_having s_order s_limit s_offset] in *.
@@ -837,8 +849,7 @@ Section SP.
     (* the token after the select list *)
     assert (Hf : hd_in Titems Rf).
     { subst Rf Rj. destruct from as [|t tl].
-      - destruct joins; [|discriminate]. destruct wh, gb, hv, ob, lim, off; try discriminate.
-        subst Rw Rg Rh Rob Rl Ro. cbn [from_toks list_clause map joins_toks where_toks group_toks having_toks orderby_toks limit_toks offset_toks opt_clause exprs_toks orders_toks app]. eapply hd_weaken; [exact H6|in_sub2].
+      - destruct joins; [|discriminate]. cbn [from_toks list_clause map joins_toks app]. eapply hd_weaken; [exact H0|in_sub2].
       - unfold from_toks, list_clause. cbn [map app]. split; reflexivity. }
     destruct items as [|it itl]; [discriminate|].
     assert (Hlen_items : length (sep_by [tComma] (items_toks sr 0 (it :: itl)) ++ Rf) < fuel).
@@ -930,3 +941,615 @@ Example ex_select_parse :
   = Val (GSelectS (ast_of_select ex_select), [Tk TyEOF ""]).
 Proof. vm_compute. reflexivity. Qed.
 Example ex_select_free : select_bare_alias_free ex_select = true. Proof. reflexivity. Qed.
+
+(* ------------------------------------------------------------------------------------------------ *)
+(* set operations: a query is its first SELECT followed by (operator, ALL?, SELECT) steps, left-nested *)
+Fixpoint query_first (q : mquery) : mselect := match q with QSelect s => s | QSetOp l _ _ _ => query_first l end.
+Fixpoint query_ops (q : mquery) : list (setop * bool * mselect) :=
+  match q with QSelect _ => [] | QSetOp l op all r => query_ops l ++ [(op, all, r)] end.
+Definition op_step (l : gstmt) (x : setop * bool * mselect) : gstmt :=
+  match x with (op, all, r) => GSetOp l (setop_str op) (GSelectS (ast_of_select r)) all end.
+Fixpoint ops_toks (sr : srho) (k : nat) (ops : list (setop * bool * mselect)) : list token :=
+  match ops with
+  | [] => []
+  | (op, all, r) :: tl => setop_tok op :: (if all then [Tk TyAll "ALL"] else []) ++ render_select (shift sr k) r ++ ops_toks sr (S k) tl
+  end.
+Fixpoint ops_depth (sr : srho) (k : nat) (ops : list (setop * bool * mselect)) : nat :=
+  match ops with [] => 0 | (_, _, r) :: tl => Nat.max (select_depth (shift sr k) r) (ops_depth sr (S k) tl) end.
+
+Lemma qsize_ops : forall q, qsize q = S (length (query_ops q)).
+Proof. induction q as [s|l IH op all r]; cbn [qsize query_ops]; [reflexivity|]. rewrite app_length. cbn [length]. lia. Qed.
+
+Lemma ops_toks_app : forall sr a b k, ops_toks sr k (a ++ b) = ops_toks sr k a ++ ops_toks sr (k + length a) b.
+Proof.
+  intros sr a. induction a as [|[[op all] r] tl IH]; intros b k.
+  - cbn [app ops_toks length]. rewrite Nat.add_0_r. reflexivity.
+  - cbn [app ops_toks length]. rewrite IH. replace (S k + length tl) with (k + S (length tl)) by lia.
+    cbn [app]. rewrite <- ?app_assoc. cbn [app]. rewrite <- ?app_assoc. reflexivity.
+Qed.
+
+Lemma ops_depth_app : forall sr a b k, ops_depth sr k (a ++ b) = Nat.max (ops_depth sr k a) (ops_depth sr (k + length a) b).
+Proof.
+  intros sr a. induction a as [|[[op all] r] tl IH]; intros b k.
+  - cbn [app ops_depth length]. rewrite Nat.add_0_r. reflexivity.
+  - cbn [app ops_depth length]. rewrite IH. replace (S k + length tl) with (k + S (length tl)) by lia. lia.
+Qed.
+
+Lemma render_query_flat : forall sr q base,
+    render_query sr base q = render_select (shift sr base) (query_first q) ++ ops_toks sr (S base) (query_ops q).
+Proof.
+  intros sr. induction q as [s|l IH op all r]; intros base; cbn [render_query query_first query_ops].
+  - cbn [ops_toks]. rewrite app_nil_r. reflexivity.
+  - rewrite IH, ops_toks_app, qsize_ops. cbn [ops_toks]. rewrite app_nil_r.
+    replace (base + S (length (query_ops l))) with (S base + length (query_ops l)) by lia.
+    rewrite <- !app_assoc. cbn [app]. reflexivity.
+Qed.
+
+Lemma query_depth_flat : forall sr q base,
+    query_depth sr base q = Nat.max (select_depth (shift sr base) (query_first q)) (ops_depth sr (S base) (query_ops q)).
+Proof.
+  intros sr. induction q as [s|l IH op all r]; intros base; cbn [query_depth query_first query_ops].
+  - cbn [ops_depth]. lia.
+  - rewrite IH, ops_depth_app, qsize_ops. cbn [ops_depth].
+    replace (base + S (length (query_ops l))) with (S base + length (query_ops l)) by lia. lia.
+Qed.
+
+Lemma ast_of_query_flat : forall w q,
+    ast_of_query_w w q = fold_left op_step (query_ops q) (GSelectS (ast_of_select_w w (query_first q))).
+Proof.
+  intros w. induction q as [s|l IH op all r]; cbn [ast_of_query_w query_first query_ops]; [reflexivity|].
+  rewrite fold_left_app. cbn [fold_left op_step]. rewrite IH. reflexivity.
+Qed.
+
+Definition op_ok (x : setop * bool * mselect) : bool := match x with (_, _, r) => select_ok r && plain_operand r end.
+Lemma query_ops_ok : forall q, query_ok q = true -> select_ok (query_first q) = true /\ forallb op_ok (query_ops q) = true.
+Proof.
+  induction q as [s|l IH op all r]; cbn [query_ok query_first query_ops]; intros H.
+  - split; [exact H|reflexivity].
+  - apply andb_prop in H. destruct H as [H Hp]. apply andb_prop in H. destruct H as [H Hr]. apply andb_prop in H. destruct H as [H Hlp].
+    destruct (IH H) as [Hq1 Hq2]. split; [exact Hq1|].
+    rewrite forallb_app. rewrite Hq2. cbn [forallb op_ok]. rewrite Hr, Hp. reflexivity.
+Qed.
+Definition op_free (x : setop * bool * mselect) : bool := match x with (_, _, r) => select_bare_alias_free r end.
+
+Section SetOps.
+  Variable md : nat.
+  Variable fuel : nat.
+  Variable sf : sflags.
+  Notation pe := (parse_expression md no_defects fuel).
+
+  Lemma ops_follow : forall sr k ops stop, query_follow stop -> sel_follow (ops_toks sr k ops ++ stop).
+  Proof.
+    intros sr k ops stop H. destruct ops as [|[[op all] r] tl]; cbn [ops_toks app]; [apply query_follow_sel; exact H|].
+    eexists _, _. split; [reflexivity|]. destruct op; reflexivity.
+  Qed.
+
+  Lemma setops_loop_ok : forall ops, forallb op_ok ops = true ->
+      (d_no_alias_after_column sf = false \/ forallb op_free ops = true) ->
+      forall (sr : srho) k d left stop n,
+        query_follow stop ->
+        d + 2 + ops_depth sr k ops <= md ->
+        length (ops_toks sr k ops ++ stop) < fuel ->
+        length (ops_toks sr k ops ++ stop) < n ->
+        setops_loop md sf pe n d left (ops_toks sr k ops ++ stop) = Val (fold_left op_step ops left, stop).
+  Proof.
+    induction ops as [|[[op all] r] tl IH]; intros Hok Hflag sr k d left stop n Hstop Hdep Hlen Hn; (destruct n as [|n]; [lia|]).
+    - cbn [ops_toks app setops_loop fold_left]. rewrite query_follow_no_setop by exact Hstop. reflexivity.
+    - cbn [forallb op_ok] in Hok. apply andb_prop in Hok. destruct Hok as [Hr Htl]. apply andb_prop in Hr. destruct Hr as [Hr _].
+      assert (Hf1 : d_no_alias_after_column sf = false \/ select_bare_alias_free r = true).
+      { destruct Hflag as [Hf|Hb]; [left; exact Hf|right]. cbn [forallb op_free] in Hb. apply andb_prop in Hb. tauto. }
+      assert (Hf2 : d_no_alias_after_column sf = false \/ forallb op_free tl = true).
+      { destruct Hflag as [Hf|Hb]; [left; exact Hf|right]. cbn [forallb op_free] in Hb. apply andb_prop in Hb. tauto. }
+      cbn [ops_toks ops_depth fold_left op_step] in *. unfold render_select in *.
+      repeat (cbn [app] in *; rewrite <- app_assoc in * ). cbn [app] in *.
+      cbn [length] in Hlen, Hn. rewrite !app_length in Hlen, Hn. cbn [length] in Hlen, Hn. rewrite !app_length in Hlen, Hn.
+      cbn [setops_loop].
+      assert (Hso : is_setop (setop_tok op) = true) by (destruct op; reflexivity).
+      cbn [cur advance]. rewrite Hso.
+      destruct all; cbn [app cur advance]; isT_conc; cbn iota; cbn [negb cur advance]; isT_conc; cbn iota; cbn [negb cur advance].
+      all: rewrite parse_select_ok; [|exact Hr|exact Hf1|apply ops_follow; exact Hstop|lia|rewrite !app_length; cbn [length] in *; lia].
+      all: cbn [rewrap bind].
+      all: rewrite IH; [|exact Htl|exact Hf2|exact Hstop|lia|rewrite ?app_length; lia|rewrite ?app_length; lia].
+      all: unfold setop_str; reflexivity.
+  Qed.
+
+  (* parseSelectWithSetOperations on everything after the first SELECT keyword of a query *)
+  Lemma select_setops_ok : forall (sr : srho) q base stop d,
+      query_ok q = true ->
+      (d_no_alias_after_column sf = false \/ (select_bare_alias_free (query_first q) = true /\ forallb op_free (query_ops q) = true)) ->
+      query_follow stop ->
+      d + 2 + query_depth sr base q <= md ->
+      length (render_query sr base q ++ stop) <= fuel ->
+      parse_select_setops md sf pe d (select_tail_toks (shift sr base) (query_first q) ++ ops_toks sr (S base) (query_ops q) ++ stop)
+      = Val (ast_of_query q, stop).
+  Proof.
+    intros sr q base stop d Hok Hflag Hstop Hdep Hlen.
+    destruct (query_ops_ok q Hok) as [H1 H2].
+    rewrite render_query_flat in Hlen. rewrite query_depth_flat in Hdep. unfold render_select in Hlen.
+    cbn [app length] in Hlen. rewrite <- app_assoc in Hlen. rewrite app_length in Hlen.
+    unfold parse_select_setops.
+    rewrite parse_select_ok; [|exact H1| |apply ops_follow; exact Hstop|lia|rewrite app_length; lia].
+    2:{ destruct Hflag as [Hf|[Hb _]]; [left; exact Hf|right; exact Hb]. }
+    cbn [bind].
+    rewrite setops_loop_ok; [|exact H2| |exact Hstop|lia|lia|lia].
+    2:{ destruct Hflag as [Hf|[_ Hb]]; [left; exact Hf|right; exact Hb]. }
+    unfold ast_of_query. rewrite ast_of_query_flat. reflexivity.
+  Qed.
+End SetOps.
+
+(* ------------------------------------------------------------------------------------------------ *)
+(* WITH, INSERT, UPDATE, DELETE *)
+Definition Tq : list tty := [TyEOF; TySemicolon; TyRParen].
+Definition Tret := TyReturning :: Tq.
+Definition Twr := TyWhere :: Tret.
+
+Lemma stmt_follow_hd : forall stop, stmt_follow stop -> hd_in Tq stop /\ String.eqb (lit (cur stop)) "RETURNING" = false.
+Proof.
+  intros stop (t & rest & E & H). subst stop. unfold stmt_stop in H. apply andb_prop in H. destruct H as [H Hl].
+  apply andb_prop in H. destruct H as [H Hs]. apply negb_true_iff in Hl. split; [|exact Hl].
+  split; [|exact Hs]. cbn [cur]. unfold tyin, Tq. cbn [existsb]. unfold isT in H. rewrite orb_false_r. repeat rewrite orb_assoc in *. exact H.
+Qed.
+
+Lemma stmt_follow_query : forall stop, stmt_follow stop -> query_follow stop.
+Proof.
+  intros stop (t & rest & E & H). exists t, rest. split; [exact E|]. unfold stmt_stop in H. unfold query_stop.
+  apply andb_prop in H. destruct H as [H _]. apply andb_prop in H. destruct H as [H Hs]. rewrite Hs, andb_true_r.
+  repeat (apply orb_prop in H; destruct H as [H|H]); rewrite H; repeat rewrite orb_true_r; reflexivity.
+Qed.
+
+Lemma query_bare_flat : forall q, query_bare_alias_free q = true ->
+    select_bare_alias_free (query_first q) = true /\ forallb op_free (query_ops q) = true.
+Proof.
+  induction q as [s|l IH op all r]; cbn [query_bare_alias_free query_first query_ops]; intros H.
+  - split; [exact H|reflexivity].
+  - apply andb_prop in H. destruct H as [Hl Hr]. destruct (IH Hl) as [H1 H2]. split; [exact H1|].
+    rewrite forallb_app, H2. cbn [forallb op_free]. rewrite Hr. reflexivity.
+Qed.
+
+Lemma set_with_fold : forall w ops left, set_with_leftmost w (fold_left op_step ops left) = fold_left op_step ops (set_with_leftmost w left).
+Proof.
+  intros w ops. induction ops as [|[[op all] r] tl IH]; intros left; [reflexivity|].
+  cbn [fold_left op_step]. rewrite IH. reflexivity.
+Qed.
+
+Lemma set_with_query : forall w q, set_with w (ast_of_query q) = ast_of_query_w (Some w) q.
+Proof.
+  intros w q. unfold ast_of_query. rewrite !ast_of_query_flat.
+  assert (H : set_with w (fold_left op_step (query_ops q) (GSelectS (ast_of_select_w None (query_first q))))
+              = set_with_leftmost w (fold_left op_step (query_ops q) (GSelectS (ast_of_select_w None (query_first q))))).
+  { destruct (query_ops q) as [|x tl] using rev_ind; [reflexivity|]. rewrite fold_left_app. cbn [fold_left]. destruct x as [[op all] r]. reflexivity. }
+  rewrite H, set_with_fold. reflexivity.
+Qed.
+
+Section Stmts.
+  Variable md : nat.
+  Variable fuel : nat.
+  Variable sf : sflags.
+  Notation pe := (parse_expression md no_defects fuel).
+
+  Definition qflag (q : mquery) : Prop := d_no_alias_after_column sf = false \/ query_bare_alias_free q = true.
+
+  Lemma qflag_flat : forall q, qflag q ->
+      d_no_alias_after_column sf = false \/ (select_bare_alias_free (query_first q) = true /\ forallb op_free (query_ops q) = true).
+  Proof. intros q [H|H]; [left; exact H|right; apply query_bare_flat; exact H]. Qed.
+
+  (* a whole query, its SELECT keyword included, followed by [stop] *)
+  Lemma query_ok_parse : forall (sr : srho) q base stop d,
+      query_ok q = true -> qflag q -> query_follow stop ->
+      d + 2 + query_depth sr base q <= md ->
+      length (render_query sr base q ++ stop) <= fuel ->
+      exists tail, render_query sr base q ++ stop = Tk TySelect "SELECT" :: tail
+                   /\ parse_select_setops md sf pe d tail = Val (ast_of_query q, stop).
+  Proof.
+    intros sr q base stop d Hok Hflag Hstop Hdep Hlen.
+    exists (select_tail_toks (shift sr base) (query_first q) ++ ops_toks sr (S base) (query_ops q) ++ stop). split.
+    - rewrite render_query_flat. unfold render_select. cbn [app]. rewrite <- app_assoc. reflexivity.
+    - apply select_setops_ok; [exact Hok|apply qflag_flat; exact Hflag|exact Hstop|exact Hdep|exact Hlen].
+  Qed.
+
+  Lemma cols_list_ok : forall cols X, isT (cur X) TyLParen = false ->
+      (if isT (cur (cols_toks cols ++ X)) TyLParen then paren_ident_list (cols_toks cols ++ X) else Val ([], cols_toks cols ++ X))
+      = Val (cols, X).
+  Proof.
+    intros cols X HX. destruct cols as [|c cl]; cbn [cols_toks app].
+    - rewrite HX. reflexivity.
+    - cbn [cur]. isT_conc. cbn iota. rewrite <- app_assoc. cbn [app]. apply paren_ident_list_ok.
+  Qed.
+
+  Lemma parse_cte_ok : forall (sr : srho) base c X d,
+      cte_ok c = true -> qflag (c_body c) ->
+      d + 3 + query_depth sr base (c_body c) <= md ->
+      length (cte_toks sr base c ++ X) <= fuel ->
+      parse_cte md sf pe d (cte_toks sr base c ++ X) = Val (ast_of_cte c, X).
+  Proof.
+    intros sr base [name cols mat body] X d Hok Hflag Hdep Hlen. unfold cte_ok in Hok. cbn [c_body c_name c_cols c_mat] in *.
+    unfold cte_toks in *. cbn [c_body c_name c_cols c_mat] in *.
+    repeat (cbn [app] in *; rewrite <- app_assoc in * ). cbn [app] in *.
+    destruct (query_ok_parse sr body base (tRP :: X) (S d) Hok Hflag) as (tail & Etail & Hparse).
+    { eexists _, _. split; reflexivity. }
+    { lia. }
+    { cbn [length] in Hlen. rewrite !app_length in Hlen. cbn [length] in Hlen. rewrite !app_length in Hlen. cbn [length] in Hlen. lia. }
+    rewrite Etail in *.
+    unfold parse_cte. destruct (Nat.ltb_spec md (S d)); [lia|].
+    cbn [cur advance]. unfold is_identifier at 1. isT_conc. cbn [orb negb lit]. cbn iota.
+    rewrite cols_list_ok by reflexivity. cbn [bind cur advance]. isT_conc. cbn iota. cbn [negb].
+    destruct mat as [[|]|]; cbn [mat_toks app cur advance]; isT_conc; cbn iota; cbn [bind negb cur advance]; isT_conc; cbn iota; cbn [negb cur advance].
+    all: cbn [bind negb cur advance]; isT_conc; cbn iota; cbn [negb cur advance].
+    all: rewrite Hparse; cbn [rewrap bind cur advance]; isT_conc; cbn iota; reflexivity.
+  Qed.
+
+  Lemma ctes_sep_cons2 : forall (sr : srho) base c c2 tl,
+      sep_by [tComma] (ctes_toks sr base (c :: c2 :: tl))
+      = cte_toks sr base c ++ tComma :: sep_by [tComma] (ctes_toks sr (base + qsize (c_body c)) (c2 :: tl)).
+  Proof. reflexivity. Qed.
+
+  Definition ctes_flag (l : list mcte) : Prop :=
+    d_no_alias_after_column sf = false \/ forallb (fun c => query_bare_alias_free (c_body c)) l = true.
+
+  Lemma cte_list_ok : forall l, forallb cte_ok l = true -> l <> [] -> ctes_flag l ->
+      forall (sr : srho) base d acc X n,
+        isT (cur X) TyComma = false ->
+        d + ctes_depth sr base l <= md ->
+        length (sep_by [tComma] (ctes_toks sr base l) ++ X) <= fuel ->
+        length (sep_by [tComma] (ctes_toks sr base l) ++ X) < n ->
+        cte_list md sf pe n d acc (sep_by [tComma] (ctes_toks sr base l) ++ X) = Val (acc ++ map ast_of_cte l, X).
+  Proof.
+    induction l as [|c tl IH]; intros Hok Hne Hflag sr base d acc X n HX Hdep Hlen Hn; [contradiction|].
+    cbn [forallb] in Hok. apply andb_prop in Hok. destruct Hok as [Hc Htl].
+    assert (Hf1 : qflag (c_body c)).
+    { destruct Hflag as [Hf|Hb]; [left; exact Hf|right]. cbn [forallb] in Hb. apply andb_prop in Hb. tauto. }
+    assert (Hf2 : ctes_flag tl).
+    { destruct Hflag as [Hf|Hb]; [left; exact Hf|right]. cbn [forallb] in Hb. apply andb_prop in Hb. tauto. }
+    cbn [ctes_depth] in Hdep.
+    destruct n as [|n]; [lia|].
+    destruct tl as [|c2 tl'].
+    - cbn [ctes_toks sep_by] in *. cbn [cte_list].
+      rewrite parse_cte_ok; [|exact Hc|exact Hf1|lia|exact Hlen].
+      cbn [rewrap bind]. rewrite HX. reflexivity.
+    - rewrite ctes_sep_cons2 in *. rewrite <- app_assoc in *. cbn [app] in *.
+      rewrite app_length in Hlen, Hn. cbn [length] in Hlen, Hn.
+      cbn [cte_list].
+      rewrite parse_cte_ok; [|exact Hc|exact Hf1|lia|rewrite app_length; cbn [length]; lia].
+      cbn [rewrap bind cur advance]. change (isT tComma TyComma) with true. cbn iota.
+      assert (Hcl : 1 <= length (cte_toks sr base c)) by (unfold cte_toks; cbn [length]; lia).
+      rewrite (IH Htl ltac:(discriminate) Hf2 sr (base + qsize (c_body c)) d (acc ++ [ast_of_cte c]) X n HX); [|lia|lia|lia].
+      rewrite <- app_assoc. reflexivity.
+  Qed.
+
+  (* ---------------------------------------------------------------------------------------------- *)
+  (* RETURNING, optional WHERE of UPDATE / DELETE *)
+  Lemma returning_ok : forall (sr : srho) ret stop d,
+      forallb ref_expr ret = true -> stmt_follow stop ->
+      S d + exprs_depth sr cl_returning 0 ret <= md ->
+      length (returning_toks sr ret ++ stop) < fuel ->
+      parse_returning pe d (returning_toks sr ret ++ stop) = Val (map ast_of ret, stop).
+  Proof.
+    intros sr ret stop d Href Hstop Hdep Hlen. destruct (stmt_follow_hd stop Hstop) as [HR Hlit].
+    unfold returning_toks, list_clause in *. destruct ret as [|e tl].
+    - cbn [exprs_toks app map]. unfold parse_returning. hd_rw HR. rewrite Hlit. reflexivity.
+    - remember (e :: tl) as l0 eqn:El.
+      assert (Hex : exprs_toks sr cl_returning 0 l0 <> []) by (subst l0; discriminate).
+      destruct (exprs_toks sr cl_returning 0 l0) as [|x xs] eqn:Ex; [contradiction|]. rewrite <- Ex in *. clear Hex Ex x xs.
+      cbn [app] in *. cbn [length] in Hlen.
+      unfold parse_returning. cbn [cur advance]. isT_conc. cbn [orb]. cbn iota.
+      rewrite (returning_list_ok md fuel l0 Href ltac:(subst l0; discriminate) sr cl_returning 0 d [] stop _ Tq HR eq_refl); [reflexivity|lia|lia|lia].
+  Qed.
+
+  Lemma ret_hd : forall (sr : srho) ret stop, stmt_follow stop -> hd_in Tret (returning_toks sr ret ++ stop).
+  Proof.
+    intros sr ret stop Hstop. destruct (stmt_follow_hd stop Hstop) as [HR _]. unfold returning_toks.
+    apply hd_list; [exact HR|reflexivity].
+  Qed.
+
+  Lemma opt_where_ok : forall (sr : srho) w R d, optb ref_expr w = true -> hd_in Tret R ->
+      S d + opt_depth (sr cl_where 0) w <= md -> length (where_toks sr w ++ R) < fuel ->
+      parse_opt_where pe d (where_toks sr w ++ R) = Val (option_map ast_of w, R).
+  Proof.
+    intros sr w R d Href HR Hdep Hlen. unfold where_toks in *. destruct w as [e|]; cbn [opt_clause app option_map opt_depth optb] in *.
+    - unfold parse_opt_where. cbn [cur advance]. isT_conc. cbn iota.
+      rewrite (pe_item md fuel); [reflexivity|assumption|apply HR|assumption|cbn [length] in Hlen; lia].
+    - unfold parse_opt_where. hd_rw HR. reflexivity.
+  Qed.
+
+  Lemma skip_limit_id : forall R, hd_in Tret R -> skip_limit R = R.
+  Proof. intros R HR. unfold skip_limit. hd_rw HR. reflexivity. Qed.
+
+  (* ---------------------------------------------------------------------------------------------- *)
+  (* DELETE *)
+  Lemma parse_delete_ok : forall (sr : srho) t wh ret stop d,
+      path_ok t = true -> optb ref_expr wh = true -> forallb ref_expr ret = true -> stmt_follow stop ->
+      S d + Nat.max (opt_depth (sr cl_where 0) wh) (exprs_depth sr cl_returning 0 ret) <= md ->
+      length (Tk TyFrom "FROM" :: path_toks t ++ where_toks sr wh ++ returning_toks sr ret ++ stop) < fuel ->
+      parse_delete pe d (Tk TyFrom "FROM" :: path_toks t ++ where_toks sr wh ++ returning_toks sr ret ++ stop)
+      = Val (GDelete None (join_dot t) "" [] (option_map ast_of wh) (map ast_of ret), stop).
+  Proof.
+    intros sr t wh ret stop d Hp Hwh Hret Hstop Hdep Hlen.
+    destruct t as [|p ps]; [discriminate|].
+    pose proof (ret_hd sr ret stop Hstop) as HRr.
+    assert (HRw : hd_in Twr (where_toks sr wh ++ returning_toks sr ret ++ stop)) by (apply hd_opt; [exact HRr|reflexivity]).
+    cbn [length] in Hlen. rewrite !app_length in Hlen.
+    unfold parse_delete. cbn [cur advance]. isT_conc. cbn iota. cbn [negb].
+    rewrite qname_ok by (apply (hd_isT Twr _ TyPeriod HRw eq_refl)).
+    cbn [rewrap bind].
+    rewrite opt_where_ok; [|exact Hwh|exact HRr|lia|rewrite !app_length; lia].
+    cbn [bind]. rewrite skip_limit_id by exact HRr.
+    rewrite returning_ok; [reflexivity|exact Hret|exact Hstop|lia|rewrite app_length; lia].
+  Qed.
+
+  (* ---------------------------------------------------------------------------------------------- *)
+  (* UPDATE *)
+  Lemma sets_sep_cons2 : forall (sr : srho) i c e x tl,
+      sep_by [tComma] (sets_toks sr i ((c, e) :: x :: tl))
+      = (Tk TyIdent c :: Tk TyEq "=" :: render 0 (sr cl_set i) e) ++ tComma :: sep_by [tComma] (sets_toks sr (S i) (x :: tl)).
+  Proof. intros. destruct x. reflexivity. Qed.
+
+  Lemma set_list_ok : forall l, forallb (fun ce : string * mexpr => ref_expr (snd ce)) l = true -> l <> [] ->
+      forall (sr : srho) i d acc R n,
+        hd_in Twr R ->
+        S d + sets_depth sr i l <= md ->
+        length (sep_by [tComma] (sets_toks sr i l) ++ R) < fuel ->
+        length (sep_by [tComma] (sets_toks sr i l) ++ R) < n ->
+        set_list pe n d acc (sep_by [tComma] (sets_toks sr i l) ++ R) = Val (acc ++ ast_of_sets l, R).
+  Proof.
+    induction l as [|[c e] tl IH]; intros Href Hne sr i d acc R n HR Hdep Hlen Hn; [contradiction|].
+    cbn [forallb snd] in Href. apply andb_prop in Href. destruct Href as [Hre Hrtl].
+    cbn [sets_depth] in Hdep.
+    destruct n as [|n]; [lia|].
+    destruct tl as [|x tl'].
+    - cbn [sets_toks sep_by app] in *. cbn [length] in Hlen, Hn.
+      cbn [set_list cur advance]. unfold is_identifier. isT_conc. cbn [orb negb lit]. cbn iota.
+      rewrite (pe_item md fuel); [|assumption|apply HR|lia|lia].
+      cbn [bind]. rewrite (hd_isT Twr R TyComma HR eq_refl). reflexivity.
+    - rewrite sets_sep_cons2 in *. cbn [app] in *. rewrite <- app_assoc in *. cbn [app] in *.
+      cbn [length] in Hlen, Hn. rewrite app_length in Hlen, Hn. cbn [length] in Hlen, Hn.
+      cbn [set_list cur advance]. unfold is_identifier. isT_conc. cbn [orb negb lit]. cbn iota.
+      rewrite (pe_item md fuel); [|assumption|reflexivity|lia|rewrite app_length; cbn [length]; lia].
+      cbn [bind cur advance]. change (isT tComma TyComma) with true. cbn iota.
+      rewrite (IH Hrtl ltac:(discriminate) sr (S i) d (acc ++ [(GIdent c "", ast_of e)]) R n HR); [|lia|lia|lia].
+      rewrite <- app_assoc. reflexivity.
+  Qed.
+
+  Lemma parse_update_ok : forall (sr : srho) t sets wh ret stop d,
+      path_ok t = true -> sets <> [] -> forallb (fun ce : string * mexpr => ref_expr (snd ce)) sets = true ->
+      optb ref_expr wh = true -> forallb ref_expr ret = true -> stmt_follow stop ->
+      S d + Nat.max (sets_depth sr 0 sets) (Nat.max (opt_depth (sr cl_where 0) wh) (exprs_depth sr cl_returning 0 ret)) <= md ->
+      length (path_toks t ++ Tk TySet "SET" :: sep_by [tComma] (sets_toks sr 0 sets) ++ where_toks sr wh ++ returning_toks sr ret ++ stop) < fuel ->
+      parse_update pe d (path_toks t ++ Tk TySet "SET" :: sep_by [tComma] (sets_toks sr 0 sets) ++ where_toks sr wh ++ returning_toks sr ret ++ stop)
+      = Val (GUpdate None (join_dot t) "" (ast_of_sets sets) [] (option_map ast_of wh) (map ast_of ret), stop).
+  Proof.
+    intros sr t sets wh ret stop d Hp Hne Hsets Hwh Hret Hstop Hdep Hlen.
+    destruct t as [|p ps]; [discriminate|].
+    pose proof (ret_hd sr ret stop Hstop) as HRr.
+    assert (HRw : hd_in Twr (where_toks sr wh ++ returning_toks sr ret ++ stop)) by (apply hd_opt; [exact HRr|reflexivity]).
+    rewrite !app_length in Hlen. cbn [length] in Hlen. rewrite !app_length in Hlen.
+    unfold parse_update.
+    rewrite qname_ok by reflexivity.
+    cbn [rewrap bind cur advance]. isT_conc. cbn iota. cbn [negb].
+    rewrite set_list_ok; [|exact Hsets|exact Hne|exact HRw|lia|rewrite !app_length; lia|rewrite !app_length; lia].
+    cbn [bind app].
+    rewrite opt_where_ok; [|exact Hwh|exact HRr|lia|rewrite !app_length; lia].
+    cbn [bind]. rewrite skip_limit_id by exact HRr.
+    rewrite returning_ok; [reflexivity|exact Hret|exact Hstop|lia|rewrite app_length; lia].
+  Qed.
+
+  (* ---------------------------------------------------------------------------------------------- *)
+  (* INSERT *)
+  Definition row_toks (sr : srho) (i : nat) (row : list mexpr) : list token :=
+    tLP :: sep_by [tComma] (exprs_toks sr cl_values i row) ++ [tRP].
+
+  Lemma rows_sep_cons2 : forall (sr : srho) i row row2 tl,
+      sep_by [tComma] (rows_toks sr i (row :: row2 :: tl))
+      = row_toks sr i row ++ tComma :: sep_by [tComma] (rows_toks sr (i + length row) (row2 :: tl)).
+  Proof. reflexivity. Qed.
+
+  Lemma values_rows_ok : forall rows, forallb row_ok rows = true -> rows <> [] ->
+      forall (sr : srho) i d acc R n,
+        hd_in Tret R ->
+        S d + rows_depth sr i rows <= md ->
+        length (sep_by [tComma] (rows_toks sr i rows) ++ R) < fuel ->
+        length (sep_by [tComma] (rows_toks sr i rows) ++ R) < n ->
+        values_rows pe n d acc (sep_by [tComma] (rows_toks sr i rows) ++ R) = Val (acc ++ map (map ast_of) rows, R).
+  Proof.
+    induction rows as [|row tl IH]; intros Hok Hne sr i d acc R n HR Hdep Hlen Hn; [contradiction|].
+    cbn [forallb] in Hok. apply andb_prop in Hok. destruct Hok as [Hrow Htl].
+    unfold row_ok in Hrow. apply andb_prop in Hrow. destruct Hrow as [Hrne Hrref].
+    assert (Hrow_ne : row <> []) by (destruct row; [discriminate|discriminate]).
+    cbn [rows_depth] in Hdep.
+    destruct n as [|n]; [lia|].
+    assert (HRP : forall Y, hd_in [TyRParen] (tRP :: Y)) by (intros Y; split; reflexivity).
+    destruct tl as [|row2 tl'].
+    - cbn [rows_toks sep_by] in *. cbn [app] in *. rewrite <- app_assoc in *. cbn [app] in *.
+      cbn [length] in Hlen, Hn.
+      cbn [values_rows cur advance]. isT_conc. cbn iota. cbn [negb].
+      rewrite (expr_list_ok md fuel row Hrref Hrow_ne sr cl_values i d [] (tRP :: R) _ [TyRParen] (HRP R) eq_refl); [|lia|lia|lia].
+      cbn [bind cur advance app]. isT_conc. cbn iota. cbn [negb].
+      rewrite (hd_isT Tret R TyComma HR eq_refl). reflexivity.
+    - rewrite rows_sep_cons2 in *. unfold row_toks in *. cbn [app] in *. rewrite <- !app_assoc in *. cbn [app] in *.
+      cbn [length] in Hlen, Hn. rewrite !app_length in Hlen, Hn. cbn [length] in Hlen, Hn.
+      cbn [values_rows cur advance]. isT_conc. cbn iota. cbn [negb].
+      rewrite (expr_list_ok md fuel row Hrref Hrow_ne sr cl_values i d [] (tRP :: tComma :: sep_by [tComma] (rows_toks sr (i + length row) (row2 :: tl')) ++ R) _ [TyRParen] (HRP _) eq_refl);
+        [|lia|rewrite !app_length; cbn [length]; lia|rewrite !app_length; cbn [length]; lia].
+      cbn [bind cur advance app]. isT_conc. cbn iota. cbn [negb]. change (isT tComma TyComma) with true. cbn iota.
+      rewrite (IH Htl ltac:(discriminate) sr (i + length row) d (acc ++ [map ast_of row]) R n HR); [|lia|lia|lia].
+      rewrite <- app_assoc. reflexivity.
+  Qed.
+
+  Lemma parse_insert_ok : forall (sr : srho) base t cols src ret stop d,
+      body_ok (BInsert t cols src ret) = true ->
+      match src with inl _ => True | inr q => qflag q end ->
+      stmt_follow stop ->
+      d + body_depth sr base (BInsert t cols src ret) <= md ->
+      length (render_body sr base (BInsert t cols src ret) ++ stop) <= fuel ->
+      exists tail, render_body sr base (BInsert t cols src ret) ++ stop = Tk TyInsert "INSERT" :: tail /\
+        parse_insert md sf pe d tail
+        = Val (GInsert None (join_dot t) (map (fun c => GIdent c "") cols)
+                 (match src with inl rows => map (map ast_of) rows | inr _ => [] end)
+                 (match src with inl _ => None | inr q => Some (ast_of_query q) end) (map ast_of ret) None [], stop).
+  Proof.
+    intros sr base t cols src ret stop d Hok Hflag Hstop Hdep Hlen.
+    cbn [body_ok] in Hok. apply andb_prop in Hok. destruct Hok as [Hok Hsrc]. apply andb_prop in Hok. destruct Hok as [Hp Hret].
+    destruct t as [|p ps]; [discriminate|].
+    cbn [render_body body_depth] in *.
+    eexists. split; [cbn [app]; reflexivity|].
+    set (k := base + match src with inl _ => 0 | inr q => qsize q end) in *.
+    pose proof (ret_hd (shift sr k) ret stop Hstop) as HRr.
+    repeat (cbn [app] in *; rewrite <- app_assoc in * ). cbn [app] in *.
+    cbn [length] in Hlen. rewrite ?app_length in Hlen.
+    unfold parse_insert. cbn [cur advance]. isT_conc. cbn iota. cbn [negb].
+    assert (Hsrc_hd : forall Y, isT (cur (match src with
+                                 | inl rows => Tk TyValues "VALUES" :: sep_by [tComma] (rows_toks (shift sr base) 0 rows)
+                                 | inr q => render_query sr base q end ++ Y)) TyLParen = false
+                           /\ isT (cur (match src with
+                                 | inl rows => Tk TyValues "VALUES" :: sep_by [tComma] (rows_toks (shift sr base) 0 rows)
+                                 | inr q => render_query sr base q end ++ Y)) TyPeriod = false).
+    { intros Y. destruct src as [rows|q]; [split; reflexivity|]. rewrite render_query_flat. split; reflexivity. }
+    rewrite qname_ok.
+    2:{ destruct cols as [|c cl]; cbn [cols_toks app cur]; [apply (Hsrc_hd _)|reflexivity]. }
+    cbn [rewrap bind].
+    rewrite cols_list_ok by (apply (Hsrc_hd _)).
+    cbn [bind].
+    destruct src as [rows|q].
+    - apply andb_prop in Hsrc. destruct Hsrc as [Hrne Hrows].
+      subst k. rewrite ?Nat.add_0_r in *.
+      cbn [app cur advance]. isT_conc. cbn iota.
+      cbn [length] in Hlen. rewrite ?app_length in Hlen.
+      rewrite values_rows_ok; [|exact Hrows|destruct rows; [discriminate|discriminate]|exact HRr|lia
+                               |rewrite ?app_length; lia|rewrite ?app_length; lia].
+      cbn [bind].
+      rewrite (hd_isT Tret _ TyOn HRr eq_refl). cbn [andb].
+      rewrite returning_ok; [reflexivity|exact Hret|exact Hstop|lia|rewrite ?app_length; lia].
+    - assert (Hqf : query_follow (returning_toks (shift sr k) ret ++ stop)).
+      { unfold returning_toks, list_clause. destruct (exprs_toks (shift sr k) cl_returning 0 ret) as [|x xs].
+        - cbn [app]. apply stmt_follow_query. exact Hstop.
+        - cbn [app]. eexists _, _. split; reflexivity. }
+      destruct (query_ok_parse sr q base (returning_toks (shift sr k) ret ++ stop) d Hsrc Hflag Hqf) as (tail & Etail & Hparse).
+      { lia. }
+      { rewrite !app_length. lia. }
+      rewrite Etail. cbn [cur advance]. isT_conc. cbn iota.
+      rewrite Hparse. cbn [bind].
+      rewrite (hd_isT Tret _ TyOn HRr eq_refl). cbn [andb].
+      rewrite returning_ok; [reflexivity|exact Hret|exact Hstop|subst k; lia|].
+      assert (length tail < length (render_query sr base q ++ returning_toks (shift sr k) ret ++ stop)) by (rewrite Etail; cbn [length]; lia).
+      rewrite !app_length in *. lia.
+  Qed.
+
+  (* ---------------------------------------------------------------------------------------------- *)
+  (* the statement after the optional WITH clause *)
+  Definition main_dispatch (d : nat) (ts : list token) : sres gstmt :=
+    if isT (cur ts) TySelect then parse_select_setops md sf pe d (advance ts)
+    else if isT (cur ts) TyInsert then parse_insert md sf pe d (advance ts)
+    else if isT (cur ts) TyUpdate then parse_update pe d (advance ts)
+    else if isT (cur ts) TyDelete then parse_delete pe d (advance ts)
+    else Err EExpected.
+
+  Definition body_flag (b : mbody) : Prop :=
+    d_no_alias_after_column sf = false \/
+    match b with BQuery q => query_bare_alias_free q | BInsert _ _ (inr q) _ => query_bare_alias_free q | _ => true end = true.
+
+  Lemma body_ok_parse : forall (sr : srho) base b stop d,
+      body_ok b = true -> body_flag b -> stmt_follow stop ->
+      d + body_depth sr base b <= md ->
+      length (render_body sr base b ++ stop) <= fuel ->
+      main_dispatch d (render_body sr base b ++ stop) = Val (ast_of_stmt (MkStmt None b), stop)
+      /\ isT (cur (render_body sr base b ++ stop)) TyWith = false
+      /\ isT (cur (render_body sr base b ++ stop)) TyComma = false.
+  Proof.
+    intros sr base b stop d Hok Hflag Hstop Hdep Hlen. unfold main_dispatch, ast_of_stmt. cbn [st_with st_body ast_of_with option_map].
+    destruct b as [q|t cols src ret|t sets wh ret|t wh ret].
+    - cbn [body_ok body_depth render_body] in *.
+      destruct (query_ok_parse sr q base stop d Hok) as (tail & Etail & Hparse);
+        [destruct Hflag as [Hf|Hb]; [left; exact Hf|right; exact Hb]|apply stmt_follow_query; exact Hstop|lia|exact Hlen|].
+      rewrite Etail. cbn [cur advance]. isT_conc. cbn iota. split; [exact Hparse|split; reflexivity].
+    - destruct (parse_insert_ok sr base t cols src ret stop d Hok) as (tail & Etail & Hparse);
+        [destruct src as [rows|q]; [exact I|destruct Hflag as [Hf|Hb]; [left; exact Hf|right; exact Hb]]|exact Hstop|exact Hdep|exact Hlen|].
+      rewrite Etail. cbn [cur advance]. isT_conc. cbn iota. split; [|split; reflexivity].
+      rewrite Hparse. destruct src; reflexivity.
+    - cbn [body_ok body_depth render_body] in *.
+      repeat (apply andb_prop in Hok; destruct Hok as [Hok ?]).
+      cbn [app cur advance]. isT_conc. cbn iota. split; [|split; reflexivity].
+      rewrite <- !app_assoc. cbn [app]. rewrite <- !app_assoc.
+      rewrite parse_update_ok; [reflexivity|assumption| |assumption|assumption|assumption|exact Hstop|cbn [shift] in *; lia|].
+      + destruct sets; [discriminate|discriminate].
+      + cbn [app length] in Hlen. rewrite <- !app_assoc in Hlen. cbn [app] in Hlen. rewrite <- !app_assoc in Hlen. lia.
+    - cbn [body_ok body_depth render_body] in *.
+      repeat (apply andb_prop in Hok; destruct Hok as [Hok ?]).
+      cbn [app cur advance]. isT_conc. cbn iota. split; [|split; reflexivity].
+      rewrite <- !app_assoc.
+      rewrite parse_delete_ok; [reflexivity|assumption|assumption|assumption|exact Hstop|cbn [shift] in *; lia|].
+      cbn [app length] in Hlen. rewrite <- !app_assoc in Hlen. cbn [length]. lia.
+  Qed.
+
+  Lemma set_with_body : forall w b, set_with w (ast_of_stmt (MkStmt None b)) = ast_of_stmt_w (Some w) b.
+  Proof.
+    intros w b. unfold ast_of_stmt, ast_of_stmt_w. cbn [st_with st_body ast_of_with option_map].
+    destruct b as [q|t cols src ret|t sets wh ret|t wh ret]; [|reflexivity|reflexivity|reflexivity].
+    change (ast_of_query_w None q) with (ast_of_query q). apply set_with_query.
+  Qed.
+
+  Theorem parse_stmt_ok : forall (sr : srho) s stop d,
+      stmt_ok s = true -> (d_no_alias_after_column sf = false \/ stmt_bare_alias_free s = true) ->
+      stmt_follow stop ->
+      d + stmt_depth sr s <= md ->
+      length (render_stmt sr s ++ stop) <= fuel ->
+      parse_statement md sf pe d (render_stmt sr s ++ stop) = Val (ast_of_stmt s, stop).
+  Proof.
+    intros sr [w b] stop d Hok Hflag Hstop Hdep Hlen.
+    unfold stmt_ok in Hok. cbn [st_with st_body] in Hok. apply andb_prop in Hok. destruct Hok as [Hw Hb].
+    unfold stmt_depth in Hdep. cbn [st_with st_body] in Hdep.
+    unfold render_stmt in *. cbn [st_with st_body] in *.
+    assert (Hbf : body_flag b).
+    { destruct Hflag as [Hf|Hf]; [left; exact Hf|right]. unfold stmt_bare_alias_free in Hf. cbn [st_with st_body] in Hf.
+      apply andb_prop in Hf. destruct Hf as [_ Hf]. exact Hf. }
+    destruct w as [[rc ctes]|].
+    - cbn [with_toks with_size w_rec w_ctes with_ok] in *. apply andb_prop in Hw. destruct Hw as [Hcne Hctes].
+      repeat (cbn [app] in *; rewrite <- app_assoc in * ). cbn [app] in *.
+      destruct (body_ok_parse sr (ctes_size ctes) b stop d Hb Hbf Hstop) as (Hmain & HnW & HnC).
+      { lia. }
+      { cbn [length] in Hlen. rewrite ?app_length in Hlen. rewrite ?app_length. lia. }
+      unfold parse_statement. cbn [cur]. isT_conc. cbn iota.
+      unfold parse_with. cbn [advance].
+      assert (Hcf : ctes_flag ctes).
+      { destruct Hflag as [Hf|Hf]; [left; exact Hf|right]. unfold stmt_bare_alias_free in Hf. cbn [st_with st_body w_ctes] in Hf.
+        apply andb_prop in Hf. destruct Hf as [Hf _]. exact Hf. }
+      assert (Hchd : forall Y, isT (cur (sep_by [tComma] (ctes_toks sr 0 ctes) ++ Y)) TyRecursive = false).
+      { intros Y. destruct ctes as [|c [|c2 tl]]; [discriminate| |]; cbn [ctes_toks sep_by]; unfold cte_toks; reflexivity. }
+      cbn [length] in Hlen. rewrite !app_length in Hlen.
+      assert (Hbase : forall l base0, ctes_size l + base0 = base0 + ctes_size l) by (intros; lia).
+      destruct rc; cbn [app cur advance]; isT_conc; cbn iota; rewrite ?Hchd.
+      all: rewrite cte_list_ok; [|exact Hctes|destruct ctes; [discriminate|discriminate]|exact Hcf|exact HnC|lia
+                                 |rewrite !app_length; cbn [length] in *; lia|rewrite !app_length; lia].
+      all: cbn [bind app].
+      all: match goal with |- context [rewrap EInvalid ?X] =>
+             replace X with (Val (ast_of_stmt (MkStmt None b), stop) : sres gstmt) by (symmetry; exact Hmain) end; cbn [rewrap bind].
+      all: rewrite set_with_body; reflexivity.
+    - cbn [with_toks with_size app] in *.
+      destruct (body_ok_parse sr 0 b stop d Hb Hbf Hstop) as (Hmain & HnW & HnC); [lia|exact Hlen|].
+      unfold parse_statement. rewrite HnW.
+      unfold main_dispatch in Hmain.
+      destruct (isT (cur (render_body sr 0 b ++ stop)) TySelect); [exact Hmain|].
+      destruct (isT (cur (render_body sr 0 b ++ stop)) TyInsert); [exact Hmain|].
+      destruct (isT (cur (render_body sr 0 b ++ stop)) TyUpdate); [exact Hmain|].
+      destruct (isT (cur (render_body sr 0 b ++ stop)) TyDelete); [exact Hmain|discriminate Hmain].
+  Qed.
+End Stmts.
+
+Theorem parse_render_stmt :
+  forall md sf fuel (sr : srho) s stop d,
+    stmt_ok s = true -> (d_no_alias_after_column sf = false \/ stmt_bare_alias_free s = true) ->
+    stmt_follow stop ->
+    d + stmt_depth sr s <= md ->
+    length (render_stmt sr s ++ stop) <= fuel ->
+    parse_statement md sf (parse_expression md no_defects fuel) d (render_stmt sr s ++ stop) = Val (ast_of_stmt s, stop).
+Proof. intros. apply parse_stmt_ok; assumption. Qed.
+
+(* non-vacuity of the statement theorem *)
+Example ex_stmt_with_parse :
+  parse_statement_top tree_flags (render_stmt (fun _ _ => no_parens) ex_stmt_with ++ [Tk TyEOF ""])
+  = Val (ast_of_stmt ex_stmt_with, [Tk TyEOF ""]).
+Proof. vm_compute. reflexivity. Qed.
+Example ex_stmt_insert_parse :
+  parse_statement_top tree_flags (render_stmt (fun _ _ => no_parens) ex_stmt_insert ++ [Tk TyEOF ""])
+  = Val (ast_of_stmt ex_stmt_insert, [Tk TyEOF ""]).
+Proof. vm_compute. reflexivity. Qed.
+Example stmt_follow_eof : stmt_follow [Tk TyEOF ""].
+Proof. eexists _, _. split; reflexivity. Qed.
